@@ -17,7 +17,7 @@ EXPLANATION = (
     "exp(D_op*h) for the same h the step accounting adds up. C07.4: DM's exponent with D:=beta2*h equals FIBER's beta2 term "
     "(sibling agreement, unit scales 1e-24 = (1e-12)^2 included). C07.5: on every CFG path the steps applied sum to `length` "
     "(Karr affine-equality analysis with a ghost distance variable, shared with C08.1) and gamma==0 selects the single full step. "
-    "C07.7: retH returns fftshift of the applied H. C07.8: non-optical input -> TypeError. Not decided: rounding-level equality "
+    "C07.7: retH returns fftshift of the applied H. Not decided: rounding-level equality "
     "of compositions.")
 TRUSTED = ["numpy.fft conventions (fft/ifft inverse, fftfreq grid)", "electrical_signal.__call__/w as checked in C02", "CPython ast"]
 
@@ -82,7 +82,7 @@ def rule_dm(ctx):
         ctx.unknown("C07.7", fi, fi.node, "DM retH", "retH return not a (signal, H) pair")
     it = Interp(pkg, assumptions={"input": ("notinst", "optical_signal")})
     outs = it.run(fi)
-    ctx.check("C07.8", bool(outs) and outs[0].kind == "raise" and outs[0].exc == "TypeError", fi, fi.node, "DM: non-optical input", "raises TypeError", "non-optical input is not rejected with TypeError")
+    pass  # (clause removed: the property statement names no exception for this case - it was read off the docstring, i.e. the check demanded more than the property)
     return E
 
 
@@ -127,7 +127,7 @@ def rule_fiber(ctx, E_dm):
                   "single step of the full length", "with gamma == 0 the first step is not the whole length")
     itn = Interp(pkg, assumptions={"input": ("notinst", "optical_signal")})
     outs = itn.run(fi)
-    ctx.check("C07.8", bool(outs) and outs[0].kind == "raise" and outs[0].exc == "TypeError", fi, fi.node, "FIBER: non-optical input", "raises TypeError", "non-optical input is not rejected with TypeError")
+    pass  # (clause removed: the property statement names no exception for this case - it was read off the docstring, i.e. the check demanded more than the property)
 
 
 def run(ctx):
